@@ -4,6 +4,7 @@
   MultiPolygon, Collection, Geometry, Bound).  Exact arithmetic over an ordered field.
 -/
 import OrbProofs.C08Lemmas
+import OrbProofs.C08Provenance
 import Mathlib.Algebra.Order.Field.Rat
 
 namespace Orb.Clip
@@ -13,6 +14,24 @@ variable {α : Type} [Field α] [LinearOrder α] [IsStrictOrderedRing α]
 
 /-- The four Sutherland–Hodgman passes never hit `panic("no edge??")`. -/
 theorem ring_total (box : Bound α) (inp : List (Pt α)) : ∃ out, ring box inp = some out := ring_total' box inp
+
+/-- PROVENANCE, FOR ANY ARITHMETIC (no exactness, no hypothesis on the box): every vertex of the clipped ring is
+    an input vertex AS IT IS (a copy: `v ∈ inp`) or was computed by `intersect`, and then has a coordinate that
+    IS an edge value of the box.  "Up to rounding" in the vertex clause can therefore only concern the other
+    coordinate of such a point; a copied vertex was compared with the edges as it is and is held to the exact
+    test (Driver/C08.lean, `vertsOK`: which coordinate of which pass is computed). -/
+theorem ring_vertex_copy_or_computed {β : Type} [Add β] [Sub β] [Mul β] [Div β] [LT β] [LE β] [DecidableLT β]
+    [DecidableLE β] [BEq β] [Min β] [Max β] (box : Bound β) (inp out : List (Pt β)) (h : ring box inp = some out) :
+    ∀ v ∈ out, v ∈ inp ∨ OnEdgeValue box v := ring_prov' box inp out h
+
+/-- … in particular on the floats the implementation runs on. -/
+theorem ring_vertex_copy_or_computed_float (box : Bound Float) (inp out : List (Pt Float))
+    (h : ring box inp = some out) : ∀ v ∈ out, v ∈ inp ∨ OnEdgeValue box v := ring_prov' box inp out h
+
+/-- `clip.MultiPoint` returns points of its argument only (copies; any arithmetic). -/
+theorem multiPoint_vertices_are_input {β : Type} [Add β] [Sub β] [Mul β] [Div β] [LT β] [LE β] [DecidableLT β]
+    [DecidableLE β] [BEq β] [Min β] [Max β] (box : Bound β) (mp : List (Pt β)) :
+    ∀ v ∈ multiPoint box mp, v ∈ mp := multiPoint_prov' box mp
 
 /-- Every vertex of the clipped ring lies in the closed box (exact arithmetic: "up to rounding"). -/
 theorem ring_vertices_in_box (box : Bound α) (hb : BoxOK box) (inp out : List (Pt α)) (h : ring box inp = some out) :
